@@ -296,22 +296,94 @@ func c14r3(c *core.Ctx) {
 			}
 			return false, false
 		})
-		_, fromCounter := core.FieldLoad(autoStore.Val, tContainer, "idCount")
-		c.Check(core.Dominated(autoStore, zero) && fromCounter, "auto-id@"+fname(f), autoStore.Pos(), "the automatic id is the container counter, assigned only when ID == 0", "the automatic id is not 'container counter under ID == 0'")
-		inc := false
-		core.Instrs(f, func(i ssa.Instruction) {
-			if st, ok := i.(*ssa.Store); ok {
-				// count++ after the id was stored, or between taking the value and storing it ( id := count; count++; a.ID = id )
-				if _, ok := core.FieldAddrOf(st.Addr, tContainer, "idCount"); ok && (reachesAfter(autoStore, st) || (instrDominates(st, autoStore) && func() bool {
-					l, isL := core.StripConv(autoStore.Val).(ssa.Instruction)
-					return isL && instrDominates(l, st)
-				}())) {
-					if b, ok := st.Val.(*ssa.BinOp); ok && b.Op == token.ADD {
-						if n, ok := core.ConstInt(b.Y); ok && n == 1 {
-							inc = true
+		// the value assigned: the counter, taken under ID == 0 — or the accessory's own (explicit) id again
+		fromCounter, underZero := false, true
+		for _, src := range core.Sources(autoStore.Val) {
+			if isAccID(src) {
+				continue
+			}
+			l, isInstr := src.(ssa.Instruction)
+			if _, isCnt := core.FieldLoad(src, tContainer, "idCount"); !isCnt || !isInstr {
+				underZero = false
+				continue
+			}
+			fromCounter = true
+			if !core.Dominated(l, zero) && !core.Dominated(autoStore, zero) {
+				underZero = false
+			}
+		}
+		c.Check(underZero && fromCounter, "auto-id@"+fname(f), autoStore.Pos(), "the automatic id is the container counter, assigned only when ID == 0", "the automatic id is not 'container counter under ID == 0'")
+		// every successful path that takes the counter value moves the counter before it returns ( a.ID = count; count++ , or
+		// id := count; …; if a.ID == 0 { count++ }; a.ID = id — a second test of the unchanged a.ID has the outcome of the first )
+		inc := true
+		var taken []ssa.Instruction
+		for _, src := range core.Sources(autoStore.Val) {
+			if _, isCnt := core.FieldLoad(src, tContainer, "idCount"); isCnt {
+				if l, ok := src.(ssa.Instruction); ok {
+					taken = append(taken, l)
+				}
+			}
+		}
+		if len(taken) == 0 {
+			inc = false
+		}
+		isInc := func(i ssa.Instruction) bool {
+			st, ok := i.(*ssa.Store)
+			if !ok {
+				return false
+			}
+			if _, isCnt := core.FieldAddrOf(st.Addr, tContainer, "idCount"); !isCnt {
+				return false
+			}
+			bo, ok := st.Val.(*ssa.BinOp)
+			if !ok || bo.Op != token.ADD {
+				return false
+			}
+			n, isK := core.ConstInt(bo.Y)
+			return isK && n == 1
+		}
+		core.EnumPaths(f, 2, 20000, func(pa core.Path) {
+			ret := pa.Returns()
+			if ret == nil {
+				return
+			}
+			if rs := res(ret); len(rs) == 1 && !core.IsNilConst(pa.ResolveAt(len(pa)-1, rs[0])) {
+				return // rejected: the id was not used
+			}
+			seenTake, seenInc, infeasible := false, false, false
+			for k, b := range pa {
+				for _, i := range b.Instrs {
+					for _, l := range taken {
+						if i == l {
+							seenTake = true
+						}
+					}
+					if seenTake && isInc(i) {
+						seenInc = true
+					}
+				}
+				// a later test of a.ID that says "not zero" although the value was taken under a.ID == 0 and a.ID was not assigned since
+				if seenTake && k+1 < len(pa) {
+					if iff, ok := b.Instrs[len(b.Instrs)-1].(*ssa.If); ok {
+						t, fl := zero(iff.Cond)
+						if (t && pa[k+1] == b.Succs[1]) || (fl && pa[k+1] == b.Succs[0]) {
+							assigned := false
+							for m := 0; m <= k; m++ {
+								for _, i := range pa[m].Instrs {
+									if i == ssa.Instruction(autoStore) {
+										assigned = true
+									}
+								}
+							}
+							if !assigned {
+								infeasible = true
+							}
 						}
 					}
 				}
+			}
+			if seenTake && !seenInc && !infeasible {
+				inc = false
 			}
 		})
 		c.Check(inc, "auto-id-increment@"+fname(f), autoStore.Pos(), "the container counter is incremented after use", "the container counter is not incremented after an automatic id was taken")
@@ -329,11 +401,25 @@ func c14r3(c *core.Ctx) {
 		c.Bad("duplicate-test@"+fname(f), f.Pos(), "no lookup of the accessory's id in the container's id map")
 		return
 	}
-	if autoStore != nil {
+	if autoStore != nil && autoIDProbedFree(f, autoStore) {
+		c.OK("duplicate-test-after-assignment@"+fname(f), lookup.Pos(), "an automatic id is a counter value that was found free in the id index: the duplicate test concerns explicit ids only")
+	} else if autoStore != nil {
 		c.Check(!reachesAfter(lookup, autoStore), "duplicate-test-after-assignment@"+fname(f), lookup.Pos(), "the duplicate test reads the id after the automatic assignment",
 			"the duplicate test runs before the automatic id is assigned: an automatic id is never checked against explicit ids already in the container")
 	}
 	free := core.IsNilFact(func(v ssa.Value) bool { return v == ssa.Value(lookup) })
+	if autoStore != nil && autoIDProbedFree(f, autoStore) {
+		// … or the id is the automatic one, which was probed free: the edge on which the accessory had no id
+		free = core.AnyFact(free, core.CmpFact(func(x, y ssa.Value) (bool, bool) {
+			if n, ok := core.ConstInt(y); ok && n == 0 && isAccID(x) {
+				return true, false
+			}
+			if n, ok := core.ConstInt(x); ok && n == 0 && isAccID(y) {
+				return true, false
+			}
+			return false, false
+		}))
+	}
 	n := 0
 	core.Instrs(f, func(i ssa.Instruction) {
 		switch x := i.(type) {
@@ -495,4 +581,81 @@ func c14r5(c *core.Ctx) {
 	})
 	c.Check(copied["ID"] && copied["Type"] && copied["Characteristics"] && copied["Linked"], "service-payload-copy@"+fname(f), f.Pos(), "iid, type, characteristics and linked are taken from the receiver",
 		"Service.MarshalJSON does not copy iid/type/characteristics/linked from the service")
+}
+
+// autoIDFree (C09-R6): see the comment inside. The rule is reported under C09 — the ids inside the container stay unique (C14 holds);
+// what fails is that an accessory the application added is not served.
+func autoIDFree(c *core.Ctx) {
+	p := c.P
+	f := p.Func("accessory", "(*Container).AddAccessory")
+	if f == nil {
+		c.Undecided("AddAccessory", token.NoPos, "not found")
+		return
+	}
+	acc := paramOfType(f, tAccessory)
+	var autoStore *ssa.Store
+	core.Instrs(f, func(i ssa.Instruction) {
+		if st, ok := i.(*ssa.Store); ok {
+			if b, ok := core.FieldAddrOf(st.Addr, tAccessory, "ID"); ok && b == ssa.Value(acc) {
+				autoStore = st
+			}
+		}
+	})
+	if autoStore == nil {
+		c.Undecided("auto-id-free@"+fname(f), f.Pos(), "AddAccessory assigns no automatic id")
+		return
+	}
+	{
+		// the counter value that is handed out is not an id already in the container: explicit ids may lie ahead of the counter
+		// ( bridge, an accessory with Info.ID 3, two accessories without an id: the second automatic id is 3 again ), and the
+		// duplicate test then rejects an accessory whose id the library chose itself — NewIPTransport drops it without a word,
+		// and a controller that asks for 3.x is served the other accessory's values
+		okFree := autoIDProbedFree(f, autoStore)
+		c.Check(okFree, "auto-id-free@"+fname(f), autoStore.Pos(), "the automatic id is a counter value that was looked up in the id index and found free",
+			"the automatic id is the counter value whether or not an accessory with that (explicit) id is already in the container: with explicit ids ahead of the counter the library assigns a duplicate, the duplicate test rejects the accessory, NewIPTransport ignores the error — the accessory is missing from the database and its ids answer with another accessory's values")
+	}
+}
+
+// autoIDProbedFree: every counter value that the automatic assignment stores was looked up in the id index and found absent, and the
+// counter did not move between that probe and the point where its value was taken.
+func autoIDProbedFree(f *ssa.Function, autoStore *ssa.Store) bool {
+	isCounter := func(v ssa.Value) bool { _, ok := core.FieldLoad(v, tContainer, "idCount"); return ok }
+	var taken []ssa.Instruction
+	for _, src := range core.Sources(autoStore.Val) {
+		if l, ok := src.(ssa.Instruction); ok && isCounter(src) {
+			taken = append(taken, l)
+		}
+	}
+	if len(taken) == 0 {
+		return false
+	}
+	for _, l := range taken {
+		var probe *ssa.Lookup
+		freeID := core.IsNilFact(func(v ssa.Value) bool {
+			lk, ok := v.(*ssa.Lookup)
+			if !ok {
+				return false
+			}
+			if _, isIdx := core.FieldLoad(lk.X, tContainer, "as"); !isIdx || !isCounter(lk.Index) {
+				return false
+			}
+			probe = lk
+			return true
+		})
+		if !core.Dominated(l, freeID) || probe == nil {
+			return false
+		}
+		moved := false
+		core.Instrs(f, func(i ssa.Instruction) {
+			if st, ok := i.(*ssa.Store); ok {
+				if _, isCnt := core.FieldAddrOf(st.Addr, tContainer, "idCount"); isCnt && reachesAfter(st, l) && !reachesAfter(st, probe) {
+					moved = true
+				}
+			}
+		})
+		if moved {
+			return false
+		}
+	}
+	return true
 }
